@@ -110,7 +110,7 @@ package nsqd
 
 //@ lock NSQD.RWMutex guards topicMap, mapsof(map[string]*Topic)
 //@   invariant[map] self.topicMap != nil
-//@   invariant[values] forall k string :: {self.topicMap[k]} has(self.topicMap, k) ==> self.topicMap[k] != nil && self.topicMap[k].nsqd != nil
+//@   invariant[values] forall k string :: {self.topicMap[k]} has(self.topicMap, k) ==> self.topicMap[k] != nil && self.topicMap[k].nsqd != nil && self.topicMap[k].idFactory != nil && self.topicMap[k].backend != nil
 
 //@ lock Topic.RWMutex guards channelMap, mapsof(map[string]*Channel)
 //@   invariant[map] self.channelMap != nil
@@ -120,7 +120,7 @@ package nsqd
 // the lookup loop): a fresh object with the given identity; no existing modelled state changes.
 //@ func NewTopic(topicName string, nsqd *NSQD, deleteCallback func(*Topic)) *Topic
 //@   trusted
-//@   ensures result != nil && fresh(result) && result.name == topicName && result.nsqd == nsqd
+//@   ensures result != nil && fresh(result) && result.name == topicName && result.nsqd == nsqd && result.idFactory != nil && result.backend != nil
 //@   modifies
 //@ func NewChannel(topicName string, channelName string, nsqd *NSQD, deleteCallback func(*Channel)) *Channel
 //@   trusted
@@ -174,7 +174,7 @@ package nsqd
 //@ func (n *NSQD) GetTopic(topicName string) *Topic
 //@   props C16
 //@   requires n != nil && n.ci != nil
-//@   ensures[topic] result != nil
+//@   ensures[topic] result != nil && result.nsqd != nil && result.idFactory != nil && result.backend != nil
 //@   ensures[existing-returned] atlock(has(n.topicMap, topicName)) ==> result == atlock(n.topicMap[topicName]) && startCount == old(startCount) && luCount == old(luCount)
 //@   ensures[registered] !atlock(has(n.topicMap, topicName)) ==> atunlock(has(n.topicMap, topicName)) && atunlock(n.topicMap[topicName]) == result && result.name == topicName && fresh(result)
 //@   ensures[new-topic-started] !atlock(has(n.topicMap, topicName)) && n.isLoading != 1 ==> startCount == old(startCount) + 1 && startedTopic == result
@@ -183,7 +183,15 @@ package nsqd
 //@   ensures[channels-before-start] startCount != old(startCount) && luCount != old(luCount) && result == watchTopic ==>
 //@        (forall k int :: {luNames[k]} 0 <= k && k < len(luNames) && luNames[k] == watchName && !isEph(watchName) ==> startSawWatch)
 //@   modifies n.topicMap, mapstore(map[string]*Topic), Topic.channelMap, mapstore(map[string]*Channel),
-//@        luNames, luErr, luTopic, luCount, luAddrs, watchCreated, startCount, startedTopic, startSawWatch
+//@        luNames, luErr, luTopic, luCount, luAddrs, watchCreated, startCount, startedTopic, startSawWatch,
+//@        getTopicCalls, gotTopic, gotTopicName, gotTopicAuthSeq, gotTopicAuthOK
+//   the name asked for and whether the most recent auth check had passed, for the publish handlers'
+//   contracts (ghosts declared in zz_contracts_publish_verif.go)
+//@   onreturn getTopicCalls := getTopicCalls + 1
+//@   onreturn gotTopic := result
+//@   onreturn gotTopicName := topicName
+//@   onreturn gotTopicAuthSeq := authCalls
+//@   onreturn gotTopicAuthOK := authOK
 //@   loop 0
 //@     invariant[names] channelNames == luNames
 //@     invariant[lucount] luCount == old(luCount) + 1
